@@ -80,3 +80,28 @@ def check(ctx):
         ctx.arg_origin("3.v0-price", c0, 0, f"field:{V0}.new_exec_price", depth=0)
         ctx.arg_origin("3.v0-rate", c0, 2, f"field:{V0}.percentage", depth=0)
         ctx.arg_origin("3.v0-from", c0, 1, f"field:{V0}.for_height", depth=0)
+
+    # -- 4. the estimator handed out by the updater carries each component's own price and rate --
+    with ctx.clause("4.updater-algorithm-fields"):
+        UP = "fuel_gas_price_algorithm::v1::AlgorithmUpdaterV1"
+        A1 = "fuel_gas_price_algorithm::v1::AlgorithmV1"
+        ab = F.unit(f"{UP}::algorithm").root
+        ag = [s for bb, j, s in ab.stmts() if bb in ab.live and s["k"] == "assign" and s["rv"]["k"] == "agg" and s["rv"].get("adt") == A1]
+        ctx.expect_sites("4.algorithm-built", [str(s.get("line")) for s in ag], exactly=1, what="AlgorithmV1 { .. } in AlgorithmUpdaterV1::algorithm")
+        want = {"new_exec_price": f"call:{UP}::descaled_exec_price", "exec_price_percentage": f"field:{UP}.exec_gas_price_change_percent",
+                "new_da_gas_price": f"call:{UP}::descaled_da_price", "da_gas_price_percentage": f"field:{UP}.max_da_gas_price_change_percent",
+                "for_height": f"field:{UP}.l2_block_height"}
+        if ag:
+            o4 = Origins(ab, 1)
+            fl = ag[0]["rv"]["fields"]
+            for f, spec in want.items():
+                at = o4.atoms(ag[0]["rv"]["ops"][fl.index(f)]) if f in fl else set()
+                others = [w for g, w in want.items() if g != f]
+                ctx.add(f"4.{f}", "PROV", atom_match(at, spec) and not any(atom_match(at, w) for w in others),
+                        f"AlgorithmV1.{f} is taken from {spec.split('::')[-1].split('.')[-1]} (the DA component must be estimated with the DA rate, the exec component with the exec rate)",
+                        sites=[str(ag[0].get("line"))], site_key=f, witness={"atoms": sorted(map(str, at))[:8]})
+        for fn, fld in (("descaled_exec_price", "new_scaled_exec_price"), ("descaled_da_price", "new_scaled_da_gas_price")):
+            db_ = F.unit(f"{UP}::{fn}").root
+            at = Origins(db_, 2).atoms({"k": "copy", "l": 0})
+            ctx.add(f"4.{fn}-reads-own-price", "PROV", atom_match(at, f"field:{UP}.{fld}") and not atom_match(at, f"field:{UP}." + ("new_scaled_da_gas_price" if "exec" in fn else "new_scaled_exec_price")),
+                    f"{fn} descales {fld}", sites=[f"{db_.file}:{db_.line}"], site_key=fn)
